@@ -43,7 +43,7 @@ describe(
         "execution and the held Jacobian is returned only under it; shared cache state is touched under the "
         "lock only; a reopened HDF5 cache rebuilds its index from the file."
     ),
-    decided=["5.1 lookup/run/store ordering", "5.2 stored values are deep copies", "5.3 entry consistency", "5.4 hash match confirmed", "5.5 Jacobian flag", "5.6 lock discipline", "5.7 HDF5 index rebuilt", "5.8 HDF5 cache tables read back as written (rule group of C11)", "5.9 a hit does not edit the stored entry", "5.10 last-accessed index designates the located entry"],
+    decided=["5.1 lookup/run/store ordering", "5.2 stored values are deep copies", "5.3 entry consistency", "5.4 hash match confirmed", "5.5 Jacobian flag", "5.6 lock discipline", "5.7 HDF5 index rebuilt", "5.8 HDF5 cache tables read back as written (rule group of C11)", "5.9 a hit does not edit the stored entry", "5.10 last-accessed index designates the located entry", "5.12 hash bucket grows", "5.13 tolerance setter always runs the post-set hook", "5.14 a hit loads the caller's inputs"],
     not_decided=["numerical tolerance semantics of compare_dict_of_arrays", "hash collision probability"],
 )
 
